@@ -54,7 +54,21 @@ Cont == {
   P6("cont", <<Chest("c", 0, 0), Chest("k", 2, 0), SLet("Bundle", "tot", BLit(<<EOut("c"), EOut("k")>>)), SLet("Bundle", "navg", Bin("/", Ref("tot"), Num(-2))),
                SLet("Bundle", "in1", BLit(<<Ref("navg"), EOut("c")>>)), Place("e", "inserter", 5, 0), Enable("e", Bin("<", AnyE(Ref("in1")), Num(0)))>>, CI("c") \o CI("k"))
  }
-C06All == Scalar \cup SameT \cup Multi \cup Cont
+\* the same .output read evaluated TWICE in one sum (written twice, through two names, mixed with a second chest): it counts twice
+CS(n, it) == Sel(EOut(n), it)
+Twice == {
+  P6("twice", <<Chest("c", 0, 0), Place("e", pr, 3, 0), Enable("e", Bin(">", Bin("+", CS("c", "iron-plate"), CS("c", "iron-plate")), Num(k)))>>, CI("c")) : pr \in {"small-lamp", "inserter"}, k \in {5, 9}}
+  \cup {
+  P6("twice", <<Chest("c", 0, 0), SLet("Bundle", "p", EOut("c")), SLet("Bundle", "q", EOut("c")), Place("e", "small-lamp", 3, 0),
+                Enable("e", Bin(">", Bin("+", Sel(Ref("p"), "iron-plate"), Sel(Ref("q"), "iron-plate")), Num(7)))>>, CI("c")),
+  P6("twice", <<Chest("c", 0, 0), Chest("k", 2, 0), Place("e", "small-lamp", 5, 0),
+                Enable("e", Bin(">", Bin("+", Bin("+", CS("c", "iron-plate"), CS("k", "iron-plate")), CS("c", "iron-plate")), Num(9)))>>, CI("c") \o CI("k")),
+  P6("twice", <<Chest("c", 0, 0), SLet("Signal", "t", Bin("+", CS("c", "iron-plate"), CS("c", "iron-plate"))), Place("e", "small-lamp", 3, 0), Enable("e", Bin(">", Ref("t"), Num(7)))>>, CI("c")),
+  P6("twice", <<Chest("c", 0, 0), Place("e", "small-lamp", 3, 0), Enable("e", Bin(">", Bin("+", CS("c", "iron-plate"), CS("c", "copper-plate")), Num(7)))>>, CI("c")),
+  P6("twice", <<Chest("c", 0, 0), Place("e", "small-lamp", 3, 0), Enable("e", Bin(">", Bin("*", CS("c", "iron-plate"), CS("c", "iron-plate")), Num(30)))>>, CI("c")),
+  P6("twice", <<InA, Place("e", "small-lamp", 0, 0), Enable("e", Bin(">", Bin("+", A, A), Num(7)))>>, <<>>)
+ }
+C06All == Scalar \cup SameT \cup Multi \cup Cont \cup Twice
 
 (* ------------------------------- C09 ------------------------------------ *)
 P9(grp, stmts) == [grp |-> grp, stmts |-> stmts, src |-> Render(stmts)]
@@ -67,8 +81,22 @@ Props9 == {
   P9("props", <<SPlace("e", "inserter", Num(0), Num(0), <<[k |-> "direction", v |-> Num(4)]>>)>>),
   P9("props", <<SPlace("e", "inserter", Num(0), Num(0), <<[k |-> "direction", v |-> Num(8)]>>), SPlace("f", "transport-belt", Num(2), Num(0), <<[k |-> "direction", v |-> Num(12)]>>)>>),
   P9("props", <<SPlace("e", "small-lamp", Num(0), Num(0), <<[k |-> "always_on", v |-> Num(1)]>>)>>),
-  P9("props", <<SPlace("e", "small-lamp", Num(0), Num(0), <<[k |-> "use_colors", v |-> Num(1)], [k |-> "always_on", v |-> Num(1)]>>)>>)
+  P9("props", <<SPlace("e", "small-lamp", Num(0), Num(0), <<[k |-> "use_colors", v |-> Num(1)], [k |-> "always_on", v |-> Num(1)]>>)>>),
+  \* ZERO-valued properties: switching OFF what the prototype has on by default must survive (and restating a default must be harmless)
+  P9("props", <<SPlace("s", "train-stop", Num(0), Num(0), <<[k |-> "send_to_train", v |-> Num(0)]>>)>>),
+  P9("props", <<SPlace("s", "train-stop", Num(0), Num(0), <<[k |-> "send_to_train", v |-> Num(1)], [k |-> "read_from_train", v |-> Num(1)]>>)>>),
+  P9("props", <<SPlace("s", "train-stop", Num(0), Num(0), <<[k |-> "send_to_train", v |-> Num(0)], [k |-> "read_from_train", v |-> Num(0)]>>),
+                SPlace("c", "selector-combinator", Num(0), Num(6), <<[k |-> "select_max", v |-> Num(0)]>>)>>),
+  P9("props", <<SPlace("c", "selector-combinator", Num(0), Num(0), <<[k |-> "select_max", v |-> Num(1)]>>)>>),
+  P9("props", <<SPlace("e", "small-lamp", Num(0), Num(0), <<[k |-> "always_on", v |-> Num(0)], [k |-> "use_colors", v |-> Num(0)]>>)>>)
  }
+\* user-placed entities of the kinds the compiler also makes itself (poles, combinators): standing alone, next to something,
+\* compiled with the matching pole option as well
+UserMade == {
+  P9("usermade", <<Place("l", "small-lamp", 0, 0), Place("k", "small-lamp", 2, 0), Place("p", pole, 2, 2), Place("q", pole, 14, 2)>>) :
+      pole \in {"small-electric-pole", "medium-electric-pole", "big-electric-pole", "substation"}}
+  \cup {P9("usermade", <<Place("l", "small-lamp", 0, 0), Place("c", "constant-combinator", 4, 0), Place("d", "arithmetic-combinator", 8, 0), Place("g", "decider-combinator", 12, 4)>>),
+        P9("usermade", <<InA, SLet("Signal", "r", Bin("+", A, Num(1))), Place("p", "medium-electric-pole", 20, 3), Place("c", "constant-combinator", 24, 3)>>)}
 Loops == {
   P9("loop", <<SFor("i", IRange(Num(a), Num(b), Num(s)), <<SPlace("e", "small-lamp", Bin("*", Bin("+", Ref("i"), Num(2)), Num(2)), Num(0), <<>>)>>)>>) :
       a \in {0, 3, -2}, b \in {0, 3, 5, -2}, s \in {0, 1, 2, -1}}
@@ -106,7 +134,7 @@ Mixed == {
                 Place("g", "inserter", 21, 0)>>),
   P9("mixed", <<InA, SFor("i", IRange(Num(0), Num(4), Num(0)), <<SPlace("e", "small-lamp", Bin("*", Ref("i"), Num(2)), Num(0), <<>>), SProp("e", "enable", Bin(">", A, Ref("i")))>>)>>)
  }
-C09All == Single \cup Props9 \cup Loops \cup Funcs \cup Mixed \cup Shadow9
+C09All == Single \cup Props9 \cup Loops \cup Funcs \cup Mixed \cup Shadow9 \cup UserMade
 ASSUME PrintT(<<"NPROGS", Cardinality(C06All), Cardinality(C09All)>>)
 ASSUME JsonSerialize(IOEnv.GEN_OUT, SetToSeq({[p EXCEPT !.grp = "c06:" \o p.grp] : p \in C06All}) \o SetToSeq({[p EXCEPT !.grp = "c09:" \o p.grp] : p \in C09All}))
 =============================================================================
